@@ -246,6 +246,7 @@ def special_harness(ctx):
     proxy = bool(ctx.choose(2, "retarget_to_proxy"))
     what = ["entry-point", "DT_INIT", "DT_FINI", "safe-SEH", "tables"][ctx.choose(5, "role-of-the-block")]
     kind = "code" if what != "tables" else ["code", "data"][ctx.choose(2, "kind")]
+    first_table, second_table = (bool(ctx.choose(2, "types/profile-table-exists")), bool(ctx.choose(2, "encodings/SCCs-table-exists"))) if what == "tables" else (True, True)
     H = build(kind, "code", next_k)
     m, blk, prev, nxt = H["m"], H["blk"], H["prev"], H["nxt"]
     if what == "entry-point":
@@ -261,12 +262,17 @@ def special_harness(ctx):
         _auxdata.comments.set(m, {gtirb.Offset(blk, 0): "c", gtirb.Offset(prev, 0): "p"})
         _auxdata.padding.set(m, {gtirb.Offset(blk, 1): 3})
         _auxdata.symbolic_expression_sizes.set(m, {gtirb.Offset(blk, 1): 4})
+        # each of the per-block tables may be missing (or empty) independently of the other
         if kind == "data":
-            _auxdata.types.set(m, {blk: "T"})
-            _auxdata.encodings.set(m, {blk: "string", prev: "x"})
+            if first_table:
+                _auxdata.types.set(m, {blk: "T"})
+            if second_table:
+                _auxdata.encodings.set(m, {blk: "string", prev: "x"})
         else:
-            _auxdata.profile.set(m, {blk: 5, prev: 1})
-            _auxdata.sccs.set(m, {blk: 2})
+            if first_table:
+                _auxdata.profile.set(m, {blk: 5, prev: 1})
+            if second_table:
+                _auxdata.sccs.set(m, {blk: 2})
     with make_modify_cache(m, []) as cache:
         removed = RM.remove_block(cache, blk, proxy)
         ctx.cover("removed" if removed else "kept")
